@@ -208,7 +208,7 @@ pub fn gen_session(r: &mut Rng, max: usize) -> Vec<AResponse> {
 /// A response carrying a very large binary part (beyond several doublings of the receive buffer),
 /// followed by one or two ordinary responses (which may arrive in the same read as its end).
 pub fn gen_huge_session(r: &mut Rng) -> Vec<AResponse> {
-    let base = *r.pick(&[66_000usize, 70_000, 98_000, 100_000, 131_072, 140_000, 200_000, 262_144, 270_000, 530_000]);
+    let base = *r.pick(&[66_000usize, 70_000, 98_000, 100_000, 131_072, 140_000, 200_000, 262_144, 270_000, 530_000, 1_100_000, 2_300_000]);
     let n = base + r.below(3000);
     let mut payload = vec![0u8; n];
     for (i, b) in payload.iter_mut().enumerate() {
@@ -217,10 +217,20 @@ pub fn gen_huge_session(r: &mut Rng) -> Vec<AResponse> {
     let mut out = vec![AResponse::ok_single(AFrame { fields: vec![("size".into(), format!("{}", n)), ("type".into(), "image/png".into())], binary: Some((2, payload)) })];
     for _ in 0..r.range(1, 2) {
         let mut next = gen_response(r);
-        // keep the follow-ups small
+        // keep most follow-ups small; one in three carries 5-40 KB (more than a default-sized buffer holds), so that a
+        // lot of the next response is already buffered when the big one completes
+        let big_follow_up = r.chance(1, 3);
         for f in next.frames.iter_mut() {
             if let Some((_, b)) = f.binary.as_mut() {
                 b.truncate(200);
+            }
+        }
+        if big_follow_up {
+            let m = r.range(5_000, 40_000);
+            let filler: Vec<u8> = (0..m).map(|i| if i % 57 == 0 { b'\n' } else { (i as u32).wrapping_mul(40503) as u8 }).collect();
+            match next.frames.first_mut() {
+                Some(f) => f.binary = Some((f.fields.len(), filler)),
+                None => next.frames.push(AFrame { fields: vec![("size".into(), format!("{}", m))], binary: Some((1, filler)) }),
             }
         }
         out.push(next);
